@@ -6,6 +6,8 @@ import FxVerif.Model.Util
 * `fee <mode> <msgs> <exempt> <maxBypass> <gas> <feeCoins> <minGasPrices>` → `admit | refuse | panic`
   (mode `c` = CheckTx, `d` = deliver; lists are comma separated, `-` = empty; coins `denom:amount`, prices in 10⁻¹⁸ units);
   evaluated with the definition GENERATED from ante/fees.go
+* `nodefee <configured max gas | absent> <msgs> <configured types> <_> <gas> <feeCoins> <minGasPrices>` → the same verdict for the
+  checker that app.go WIRES from the configuration (`Gen.C20.wiredCheckTxFeees`, translated from `setAnteHandler`)
 * `target <hex>` → `ibc <prefix> <port> <channel>` / `plain <target>` (hex fields)
 * `b32 <hex>` → `ok <hex>` / `err`
 * `hexstr <hex>` → `ok` / `err` (does `hex.DecodeString` accept the text)
@@ -72,6 +74,14 @@ def step (_ : Unit) (line : String) : Unit × String :=
       let ctf : CheckTxFeees := ⟨parseList exempt, mb⟩
       let r := FxVerif.Gen.C20.checkTxFee ctf true (mode == "c") (parseList msgs) g
         (fs.map fun p => ⟨p.1, p.2⟩) (ps.map fun p => ⟨p.1, p.2⟩)
+      ((), match r with | .accept => "admit" | .refuse => "refuse" | .panic => "panic" | .notFeeTx => "notfeetx")
+    | _, _, _, _ => ((), "bad-op")
+  | ["nodefee", cfgMax, msgs, cfgTypes, _maxB, gas, fee, prices] =>
+    -- the node-level question: the checker is the one app.go WIRES from the configured values (absent = 0 / [])
+    match (if cfgMax == "absent" then some 0 else cfgMax.toNat?), gas.toNat?, (parseList fee).mapM parsePair, (parseList prices).mapM parsePair with
+    | some cm, some g, some fs, some ps =>
+      let ctf := FxVerif.Gen.C20.wiredCheckTxFeees (parseList cfgTypes) cm
+      let r := FxVerif.Gen.C20.checkTxFee ctf true true (parseList msgs) g (fs.map fun p => ⟨p.1, p.2⟩) (ps.map fun p => ⟨p.1, p.2⟩)
       ((), match r with | .accept => "admit" | .refuse => "refuse" | .panic => "panic" | .notFeeTx => "notfeetx")
     | _, _, _, _ => ((), "bad-op")
   | ["target", h] =>
